@@ -7,7 +7,7 @@ LEVEL = "other"
 EXPLANATION = ("Kani/CBMC bounded verdicts over the real ranking kernels (orders, binary heap, oversampling arithmetic, user-distance conversion) with fully symbolic floats; mirflow/z3 path obligations for the tombstone filter, "
                "the merge order and the canonical hot-candidate filter on the single, batch and timed search entry points.")
 TRUSTED_BASE = ["Kani 0.68 MIR->goto translation", "CBMC 6.11 float semantics + CaDiCaL", "Kani's model of sqrtf32 (O6.2 only uses sign/NaN facts)"]
-NOT_COVERED = ["that the graph search returns true neighbours", "reported distance vs stored vector end to end", "SIMD-vs-scalar rounding", "histories with drains and compaction",
+NOT_COVERED = ["that the graph search returns true neighbours", "reported distance vs stored vector end to end", "SIMD arithmetic values and rounding (which lanes the AVX2 / AVX-512 kernels consume is O6.8; SSE2, the 4x-unrolled loops and the scalar tails are not covered)", "histories with drains and compaction",
                "merge_knn_results (std HashMap dedup is beyond CBMC here)"]
 FA = [("ann_backend.rs", "cmp"), ("ann_backend.rs", "push"), ("ann_backend.rs", "pop"), ("ann_backend.rs", "sift_up"), ("ann_backend.rs", "sift_down")]
 HARNESSES = [
@@ -30,6 +30,15 @@ HARNESSES = [
        bounds="1..3 pushes of arbitrary (f32,u32) items then n pops; unwind 5"),
     KH("O6.4/n4", "c06_o4_search_heap_n4", "SearchHeap<ResultHeapItem>: same with up to 4 items", src="ann_backend.rs", functions=FA,
        bounds="1..4 pushes of arbitrary (f32,u32) items then n pops; unwind 6", tier="thorough", timeout=900),
+] + [
+    KH("O6.8/lanes_%s_avx512_c%d" % (k, c), "c06_o8_lanes_%s_avx512_c%d" % (k, c), "AVX-512 %s kernel, %d chunks of 16 lanes: every lane pair (a[i], b[i]) is consumed exactly once (exact integer lane model of the arithmetic intrinsics; real loads, loops and offsets)" % (k, c),
+       src="simd.rs", functions=[("simd.rs", fn_)], bounds="length %d; every lane an arbitrary bit (two arbitrary masks); unwind 82" % (16 * c), timeout=(900 if c == 2 else 2400), replay="solver-only", tier=t)
+    for k, fn_, c, t in (("l2", "l2_distance_sq_f32_avx512", 2, "quick"), ("l2", "l2_distance_sq_f32_avx512", 3, "thorough"),
+                         ("dot", "dot_f32_avx512", 2, "quick"), ("sumsq", "sum_squares_f32_avx512", 2, "quick"))
+] + [
+    KH("O6.8/lanes_%s_avx2_c%d" % (k, c), "c06_o8_lanes_%s_avx2_c%d" % (k, c), "AVX2 %s kernel, %d chunks of 8 lanes: every lane pair (a[i], b[i]) is consumed exactly once (exact integer lane model of the arithmetic intrinsics; real loads, loops and offsets)" % (k, c),
+       src="simd.rs", functions=[("simd.rs", fn_)], bounds="length %d; every lane an arbitrary bit (two arbitrary masks); unwind 82" % (8 * c), timeout=900, replay="solver-only", tier=t)
+    for k, fn_, c, t in (("l2", "l2_distance_sq_f32_avx2", 2, "quick"), ("l2", "l2_distance_sq_f32_avx2", 3, "quick"), ("dot", "dot_f32_avx2", 2, "quick"), ("dot", "dot_f32_avx2", 3, "quick"))
 ]
 
 
